@@ -21,7 +21,8 @@ run_demo() {
   if [ -n "$DEMO" ]; then
     d=$(head -1 "$DEMO" | sed 's#^// *dir: *##')
     cp "$DEMO" "$R/$d/zz_seed_demo_test.go"
-    (cd "$R/$d" && timeout 300 go test -vet=off -count=1 -run 'Seed|seed|Demo|demo' . >"$WT/demo.log" 2>&1); rc=$?
+    names=$(grep -o '^func Test[A-Za-z0-9_]*' "$DEMO" | sed 's/^func //' | paste -sd'|')
+    (cd "$R/$d" && timeout 300 go test -vet=off -count=1 -run "^($names)\$" . >"$WT/demo.log" 2>&1); rc=$?
     rm -f "$R/$d/zz_seed_demo_test.go"
     return $rc
   elif [ -d "$SEED/demo" ]; then
